@@ -1288,14 +1288,20 @@ class Model(Object):
             self.genes._generate_index()
             self.groups._generate_index()
         if rebuild_relationships:
-            for met in self.metabolites:
-                met._reaction.clear()
-            for gene in self.genes:
-                gene._reaction.clear()
-            for rxn in self.reactions:
-                rxn.update_genes_from_gpr()
-                for met in rxn._metabolites:
-                    met._reaction.add(rxn)
+            # Rebuilding the relationships is not an edit of the model: nothing
+            # of it may be recorded in (and later undone by) an open context.
+            contexts, self._contexts = self._contexts, []
+            try:
+                for met in self.metabolites:
+                    met._reaction.clear()
+                for gene in self.genes:
+                    gene._reaction.clear()
+                for rxn in self.reactions:
+                    rxn.update_genes_from_gpr()
+                    for met in rxn._metabolites:
+                        met._reaction.add(rxn)
+            finally:
+                self._contexts = contexts
 
         # point _model to self
         for dict_list in (self.reactions, self.genes, self.metabolites, self.groups):
